@@ -50,7 +50,7 @@ def f6b_witness(run, binary, jbin, base, known, prop='C02'):
     immutable_link_family(run, binary, base, prop)
 
 
-def immutable_link_family(run, binary, base, prop, n=6):
+def immutable_link_family(run, binary, base, prop, n=8):
     """Hook-free: destination links (to decoys outside) that cannot be deleted because their folder is immutable."""
     import subprocess, tempfile as tf
     rng = run.rng
@@ -69,7 +69,16 @@ def immutable_link_family(run, binary, base, prop, n=6):
             src[sub + '/f'] = {'k': 'dir'}
             src[sub + '/f/inner.txt'] = {'k': 'file', 'data': b'NEW', 'mtime_ns': sync_e2e.T0}
             src[sub + '/f/more'] = {'k': 'dir'}
+            src[sub + '/f/lnk'] = {'k': 'link', 'text': b'inner.txt'}            # every kind of creation is queued behind the failed deletion
+            src[sub + '/f/more/deep.txt'] = {'k': 'file', 'data': b'deep', 'mtime_ns': sync_e2e.T0}
+            src[sub + '/f/more/lnk2'] = {'k': 'link', 'text': b'../inner.txt'}
             dest[sub + '/f'] = {'k': 'link', 'text': ('../' * (sub.count('/') + 2) + 'outside/dir').encode()}
+        if i % 2 == 1:                               # a backlog of deletions ahead of the failing one, so that more is queued behind it
+            # (deeper entries are listed later by the breadth-first walk and the delete list is reversed: they go first)
+            for dname in ('zjunk', 'zjunk/d1', 'zjunk/d1/d2', 'zjunk/d1/d2/d3'):
+                dest[dname] = {'k': 'dir'}
+            for j in range(1500):
+                dest['zjunk/d1/d2/d3/j%04d' % j] = {'k': 'file', 'data': b'', 'mtime_ns': sync_e2e.T0}
         e2e.build_tree(os.path.join(root, 'outside'), sync_e2e.OUTSIDE)
         e2e.build_tree(os.path.join(root, 'src'), src)
         e2e.build_tree(os.path.join(root, 'dest'), dest)
